@@ -1177,6 +1177,17 @@ func (fv *FV) specCall(env *Env, c *SCall) Term {
 		}
 		k := fmt.Sprintf("k?u%d", env.qdepth+1)
 		return Term{S: fmt.Sprintf("(exists ((%s Int)) (and (<= 0 %s) (< %s (strlen %s)) (= (strdata (strbase %s) (+ (stroff %s) %s)) %s)))", k, k, k, a[0].S, a[0].S, a[0].S, k, b.S), Sort: sBool}
+	case "snap":
+		// snap(s): the backing array of slice s as a ghost value (index = position in the backing array)
+		need(1)
+		a := args()
+		et := elemType(a[0].T)
+		if et == nil {
+			fv.sfail("snap() of a non-slice")
+		}
+		key, _ := fv.elemComp(et)
+		es := fv.sortOf(et)
+		return Term{S: sel(fv.heapGet(env.st, key), "(sbase "+a[0].S+")"), Sort: arr(sInt, es), T: &specType{sort: arr(sInt, es), elem: et}}
 	case "oldelem":
 		// oldelem(s, i): element i of slice s in the old heap; s is evaluated in the old state, i in the current one
 		need(2)
@@ -1457,12 +1468,14 @@ func (fv *FV) ordTerm(f, a, b Term) Term {
 		fv.declared[name] = true
 		s := a.Sort
 		fv.decls = append(fv.decls, fmt.Sprintf("(declare-fun %s (Int %s %s) Int)", name, s, s))
+		// A total preorder on the (finitely many) values of a Go type embeds in the integers: ord is the comparison
+		// of ranks. Transitivity and antisymmetry are then linear arithmetic, with no instantiation cascade.
+		rank := "ordrank$" + cleanName(a.Sort)
+		fv.decls = append(fv.decls, fmt.Sprintf("(declare-fun %s (Int %s) Int)", rank, s))
 		fv.axioms = append(fv.axioms,
-			fmt.Sprintf("(forall ((f Int) (a %s)) (! (= (%s f a a) 0) :pattern ((%s f a a))))", s, name, name),
-			fmt.Sprintf("(forall ((f Int) (a %s) (b %s)) (! (and (= (< (%s f a b) 0) (> (%s f b a) 0)) (= (= (%s f a b) 0) (= (%s f b a) 0))) :pattern ((%s f a b))))", s, s, name, name, name, name, name),
-			fmt.Sprintf("(forall ((f Int) (a %s) (b %s) (c %s)) (! (=> (and (<= (%s f a b) 0) (<= (%s f b c) 0)) (and (<= (%s f a c) 0) (=> (or (< (%s f a b) 0) (< (%s f b c) 0)) (< (%s f a c) 0)))) :pattern ((%s f a b) (%s f b c))))", s, s, s, name, name, name, name, name, name, name, name),
+			fmt.Sprintf("(forall ((f Int) (a %s) (b %s)) (! (and (= (< (%s f a b) 0) (< (%s f a) (%s f b))) (= (= (%s f a b) 0) (= (%s f a) (%s f b)))) :pattern ((%s f a b))))", s, s, name, rank, rank, name, rank, rank, name),
 		)
-		fv.assumptions["comparison callbacks are pure, deterministic total preorders (axioms on ord)"] = true
+		fv.assumptions["comparison callbacks are pure, deterministic total preorders (ord is the comparison of integer ranks; a total preorder on the finitely many values of a Go type embeds in the integers)"] = true
 	}
 	return Term{S: app(name, f.S, a.S, b.S), Sort: sInt, T: types.Typ[types.Int]}
 }
